@@ -490,3 +490,6 @@ M('c18-cdf-left-side', 'C18', 'stat.py', "np.searchsorted(x, z, 'right')", "np.s
 T('c18-twin-cdf-side-keyword', 'C18', 'stat.py', "np.searchsorted(x, z, 'right')", "np.searchsorted(x, z, side='right')")
 M('c19-matrix-delta-transposed-slot', 'C19', 'matrices.py', "    Y[-1][0, ind_col[-1], ind_row[-1], 0] = v", "    Y[-1][0, ind_row[-1], ind_col[-1], 0] = v")
 M('c20-skeleton-args-swapped', 'C20', 'svd.py', "            Y_curr, _ = matrix_skeleton(Y_curr, e, r1)", "            Y_curr, _ = matrix_skeleton(Y_curr, r1, e)")
+# P-endpoints (C15): the end point appended is the one whose absence was tested
+M('c15-endpoint-wrong-end', 'C15', 'optima_func.py', "    if clip[1] < +np.inf and clip[1] not in x0:\n        x0.append(clip[1])", "    if clip[1] < +np.inf and clip[1] not in x0:\n        x0.append(clip[0])")
+T('c15-twin-endpoint-tmp', 'C15', 'optima_func.py', "    if clip[1] < +np.inf and clip[1] not in x0:\n        x0.append(clip[1])", "    hi_end = clip[1]\n    if hi_end < +np.inf and hi_end not in x0:\n        x0.append(hi_end)")
